@@ -77,6 +77,35 @@ def delta_term(ctx, tg):
     rng = ctx.rng
     pools = {"o": tg.pool("o", 3), "v": tg.pool("v", 3), "g": tg.pool("g", 3)}
     allidx = [i for p in pools.values() for i in p]
+    if rng.random() < 0.25:
+        # a free index T that lives on a delta only, chained through a summed index x to a further delta:
+        # delta(T, x) delta(x, y) [delta(y, z)] A_x.. B_y..   (T general / numbered / plain; x, y compatible with it)
+        def cls(i):
+            return ("o" if i[0][0] in G.OCC else "v" if i[0][0] in G.VIRT else "g", i[1])
+
+        def compatible(a, b):
+            return (cls(a)[0] == "g" or cls(b)[0] == "g" or cls(a)[0] == cls(b)[0]) and \
+                   (cls(a)[1] == "" or cls(b)[1] == "" or cls(a)[1] == cls(b)[1])
+        for _ in range(20):
+            T, x, y, z = rng.sample(allidx, 4)
+            if compatible(T, x) and compatible(x, y) and compatible(T, y):
+                break
+        else:
+            T, x, y, z = pools["o"][0], pools["o"][1], pools["o"][2], pools["g"][0]
+        ds = [(T, x), (x, y)]
+        if rng.random() < 0.3 and compatible(y, z):
+            ds.append((y, z))
+        rng.shuffle(ds)
+        objs = [("delta", "delta", (a,), (b,), 0) if rng.random() < 0.5 else ("delta", "delta", (b,), (a,), 0) for a, b in ds]
+        carriers = [x, y] + ([z] if len(ds) == 3 else [])
+        objs.append(("nonsym", "Nt", (x, y), (), 0) if rng.random() < 0.5 else ("asym", "f", (x,), (y,), 0))
+        for c in carriers:
+            if rng.random() < 0.6:
+                others = [i for i in allidx if i != T]
+                objs.append(("nonsym", "M", (c, rng.choice(others), rng.choice(others)), (), 0))
+        if len(ds) == 3 and not any(z in o[2] + o[3] for o in objs if o[0] != "delta"):
+            objs.append(("nonsym", "e", (z,), (), 0))
+        return (rng.choice([1, -1, sympy.Rational(1, 2)]), objs)
     nd = rng.randint(1, ctx.pick(4, 6))
     objs = []
     used = []
@@ -119,6 +148,8 @@ def delta_term(ctx, tg):
     # make sure every index on a delta that will be summed occurs on a tensor: append carriers
     while carried:
         a = carried.pop()
+        if used.count(a) == 1 and not any(a in o[2] + o[3] for o in objs if o[0] != "delta") and rng.random() < 0.5:
+            continue      # stays on one delta only: a free (target) index of the term that no tensor carries
         objs.append(("nonsym", "M", (a, rng.choice(allidx), rng.choice(allidx)), (), 0))
     return (rng.choice([1, -1, sympy.Rational(1, 2)]), objs)
 
